@@ -25,7 +25,8 @@ META = {
         ' Also: generic option forwarding (DEADPARAM / FORWARD / SIB-DEFAULTS / delegate names), construct_tracts hands parse_qq to every Tract, parse_tracts forwards its arguments as given (provenance), the reader applies a parsed setting unless it is None (three-valued str_to_value), keyword-wins by constant propagation, MasterConfig is the last fallback.'
         ' Round 7: the .config setters are not gated on .config_text; Config.decompile_to_text writes typed settings only; the word dispatch of _text_to_attributes is evaluated on layout names, directions, boolean settings and non-settings.'
         ' Round 8: a setting sets only itself (_set_str_to_values); parse_tracts() is not gated on parse_complete.'
-        ' Round 9: decompile_to_text walks the complete table of settings; no de-duplication in TractParser.parse.'),
+        ' Round 9: decompile_to_text walks the complete table of settings; no de-duplication in TractParser.parse.'
+        " Round 11: a setting the class keeps is in the table its config setter walks; a keyword of a setting's name is applied after the config; the layout value keeps its case on the way to the layout table; verify_default_ns / _ew use their own member's constants; loop-initialised settings count."),
     'families': ['TBL', 'LOCK', 'DEADPARAM', 'SIB', 'FORWARD', 'DEADPARAM', 'SIB-DEFAULTS'],
 }
 
@@ -59,6 +60,9 @@ def check(ctx):
     ctx.attempt(forward.check_all, module_suffixes=('config.config', 'plssdesc.plssdesc', 'plssdesc.plss_parse', 'tract.tract', 'tract.tract_parse', 'containers.containers'))
     ctx.attempt(common.none_vs_false, [f for f in ctx.repo.funcs.values() if f.module.name.endswith('config.config')])
     ctx.attempt(lockdown, ctx.repo.func('Tract.from_twprgesec'), only=('default_ns', 'default_ew'), source='config')
+    ctx.attempt(_layout_value_keeps_its_case)
+    ctx.attempt(common.name_tag_purity, [f for f in ctx.repo.funcs.values() if f.module.name.endswith(('config.config', 'config.master_config'))],
+                pairs=(('ns', 'ew'),))
 
 
 def _cfg(ctx, a):
@@ -83,6 +87,16 @@ def _codec(ctx):
     none_inits = {norm(s.targets[0])[5:] for s in walk_local(init.node)
                   if isinstance(s, ast.Assign) and norm(s.targets[0]).startswith('self.')
                   and isinstance(s.value, ast.Constant) and s.value.value is None}
+    # ... or in a loop over a table of names: `for a in self._CONFIG_ATTRIBUTES: setattr(self, a, None)`
+    for lp in walk_local(init.node):
+        if isinstance(lp, ast.For) and isinstance(lp.target, ast.Name):
+            sets = [c for c in ast.walk(lp) if isinstance(c, ast.Call) and dotted(c.func) == 'setattr' and len(c.args) == 3
+                    and norm(c.args[0]) == 'self' and norm(c.args[1]) == lp.target.id
+                    and isinstance(c.args[2], ast.Constant) and c.args[2].value is None]
+            if sets:
+                tbl = common.fold_in_func(ctx, init, lp.iter)
+                if isinstance(tbl, (list, tuple, set, frozenset)):
+                    none_inits |= {x for x in tbl if isinstance(x, str)}
     ctx.check(set(allattrs) <= none_inits, 'TBL', 'Config.__init__ initialises every setting to None',
               detail_bad=f"not initialised: {sorted(set(allattrs) - none_inits)}", key="TBL|Config.__init__")
     # writer
@@ -186,6 +200,29 @@ def _setters(ctx):
         ctx.check(names <= before, 'LOCK', f"{cls}.__init__ gives every setting a default before applying config",
                   detail_bad=f"no default before the config is applied: {sorted(names - before)}",
                   key=f"LOCK|{cls}.__init__|defaults")
+        # the converse: a setting of the Config vocabulary that this class keeps as an attribute is in the
+        # table its config setter walks - otherwise naming it in a config string has no effect on the object
+        allnames = set(_cfg(ctx, '_CONFIG_ATTRIBUTES'))
+        kept = {norm(s.targets[0])[5:] for s in stmts[:cfg_idx] if isinstance(s, ast.Assign)
+                and norm(s.targets[0]).startswith('self.')} & allnames
+        ctx.check(kept <= names, 'TBL', f"every setting {cls} keeps as an attribute is in Config.{table}",
+                  detail_bad=f"{cls}.__init__ gives {sorted(kept - names)} a default, and {cls} reads it later, but Config.{table} "
+                             f"does not list it: `{sorted(kept - names)[0] if kept - names else ''}` in a config string (or handed "
+                             f"down from the description) is silently ignored by the {cls}",
+                  key=f"TBL|Config.{table}|kept-setting-missing")
+        # a keyword of the same name as a setting is applied AFTER the config (keyword wins); using it for
+        # the default in front of `self.config = config` lets the config text override the keyword
+        for s in stmts[:cfg_idx]:
+            if isinstance(s, ast.Assign) and norm(s.targets[0]).startswith('self.') and norm(s.targets[0])[5:] in names:
+                nm = norm(s.targets[0])[5:]
+                if nm in init.params() and any(isinstance(x, ast.Name) and x.id == nm for x in ast.walk(s.value)):
+                    later = any(isinstance(x, ast.Assign) and norm(x.targets[0]) == f"self.{nm}"
+                                for s2 in stmts[cfg_idx + 1:] for x in ast.walk(s2))
+                    ctx.check(later, 'LOCK', f"{cls}.__init__: keyword {nm} is applied after the config",
+                              detail_bad=f"`{norm(s)[:70]}` uses the `{nm}` keyword for the default, in front of `self.config = config`, "
+                                         f"and nothing re-applies it afterwards: a config string that names {nm} overrides the keyword "
+                                         f"({cls}(..., config='{nm}', {nm}=False) comes out with {nm} on)",
+                              key=f"LOCK|{cls}.__init__|kw-before-config|{nm}", where=common.loc(init, s))
         for s in stmts[cfg_idx + 1:]:
             if isinstance(s, ast.Assign) and norm(s.targets[0]).startswith('self.') \
                     and norm(s.targets[0])[5:] in names:
@@ -355,6 +392,17 @@ def precedence(ctx, fi, only=None, rule='LOCK'):
             ops = [norm(x) for x in v.values]
             if p in ops and f"self.{p}" in ops:
                 n += 1
+                try:
+                    falsy_ok = set(ctx.fold.get_attr('config.config', 'Config', '_BOOL_TYPE_ATTRIBUTES')) | \
+                        set(ctx.fold.get_attr('config.config', 'Config', '_INT_TYPE_ATTRIBUTES'))
+                except Exception:
+                    falsy_ok = set()
+                if p in falsy_ok and ops.index(p) < ops.index(f"self.{p}"):
+                    ctx.violation(rule, f"{fi.qualname}: `{norm(a)}` tells 'not given' from an explicit False / 0",
+                                  f"`{norm(a)}`: `{p}` is a switch / number setting, so an explicit {p}=False (or 0) passed by the "
+                                  f"caller is taken for 'not given' and overridden by the configured self.{p}",
+                                  key=f"{rule}|{fi.qualname}|or-fallback|{p}", where=common.loc(fi, a))
+                    continue
                 ctx.check(ops.index(p) < ops.index(f"self.{p}"), rule,
                           f"{fi.qualname}: `{norm(a)}` lets the argument win",
                           detail_bad=f"`{norm(a)}`: the configured attribute overrides a given `{p}` argument "
@@ -892,3 +940,52 @@ def _deadparam(ctx):
                           f"`{p}` is only stored to self.{stored_as[0]}, which nothing in plss_parse.py reads: "
                           f"the keyword never reaches the subordinate tracts",
                           key=f"DEADPARAM|PLSSParser.__init__|{p}", where=fi.loc)
+
+
+def _layout_value_keeps_its_case(ctx):
+    """Layout names are mixed-case ('TRS_desc').  The value a config string
+    gives for `layout` is compared with that table as it stands: a
+    `.lower()` / `.upper()` anywhere on its way (also inside str_to_value)
+    makes every canonical layout name illegal in config text, so a Config
+    that names a layout no longer survives its own text form."""
+    layouts = None
+    for modsuf in ('config.config', 'config.layouts', 'parser.config.layouts'):
+        try:
+            layouts = ctx.fold.get(modsuf, '_IMPLEMENTED_LAYOUTS')
+            break
+        except AnalysisError:
+            continue
+    if not isinstance(layouts, (list, tuple, set, frozenset)) or not any(isinstance(x, str) and x != x.lower() for x in layouts):
+        ctx.undecided('TBL', 'a layout named in config text keeps its case', 'layout table not folded / all lower-case')
+        return
+    n = 0
+    for fi in ctx.repo.funcs.values():
+        if not fi.module.name.endswith('config.config'):
+            continue
+        for c in walk_local(fi.node):
+            if isinstance(c, ast.Compare) and len(c.ops) == 1 and isinstance(c.ops[0], (ast.In, ast.NotIn)) \
+                    and '_IMPLEMENTED_LAYOUTS' in norm(c.comparators[0]):
+                pv = flow.provenance(fi.node, c.left)
+                folded = []
+                for at in pv:
+                    if at[0] == 'call' and at[1].split('.')[-1] in ('lower', 'upper', 'casefold', 'title', 'swapcase', 'capitalize'):
+                        # case-folding inside a function that knows the layout names (a normaliser that maps
+                        # any spelling back to the canonical one) is not a loss of the case
+                        node_ = at[2] if len(at) > 2 else None
+                        fn_ = node_
+                        while fn_ is not None and not isinstance(fn_, (ast.FunctionDef, ast.AsyncFunctionDef)):
+                            fn_ = getattr(fn_, '_parent', None)
+                        aware = fn_ is not None and any(
+                            (isinstance(x, ast.Name) and ('LAYOUT' in x.id.upper())) or (isinstance(x, ast.Attribute) and 'LAYOUT' in x.attr.upper())
+                            for x in ast.walk(fn_))
+                        if not aware:
+                            folded.append(at[1])
+                folded = sorted(set(folded))
+                n += 1
+                ctx.check(not folded, 'TBL', f"{fi.qualname}: the layout value reaches `{norm(c)[:40]}` in the case it was written",
+                          detail_bad=f"the value compared with the (mixed-case) layout names went through {folded}: 'layout.TRS_desc' is read "
+                                     f"as 'trs_desc' and rejected - the text that decompile_to_text() writes for a layout is no longer "
+                                     f"accepted by the reader (config round trip broken; PLSSDesc(config='TRS_desc') raises on hand-down)",
+                          key=f"TBL|{fi.qualname}|layout-case-folded", where=common.loc(fi, c))
+    if n == 0:
+        ctx.undecided('TBL', 'a layout named in config text keeps its case', 'no comparison with _IMPLEMENTED_LAYOUTS found in the config reader')
